@@ -8,7 +8,7 @@ GRAMMAR_NOTE = ("Trusted: rustc nightly (HIR construction, name resolution, cons
                 "nom-derive 0.10.1 primitive impls (its generated code is analysed as source), the reference grammars in spec/grammar.py. Not decided: value round-trip through nom for all inputs (library semantics).")
 CLAIMED = {
  "C01": ("MIR panic-site inventory with guard discharge; loop/recursion and allocation discipline", "other",
-         "Every panic-capable site of every crate body (MIR Assert terminators, panicking calls, slice indexing, unwrap/expect) is enumerated from the compiler's MIR built with overflow checks and debug assertions on, and each must be discharged by a named rule (constant operand, dominating guard found in the HIR, chunk/length parity, take(N)->[u8;N]); no loops or recursion in crate bodies; size-parameterised allocations need constant sizes; defragmenter growth is dominated by the size check. Decides absence of crate-local panics/overflow/unbounded loops for all inputs; library internals are trusted.", "4 C01"),
+         "Every panic-capable site of every crate body (MIR Assert terminators, panicking calls, slice indexing, unwrap/expect) is enumerated from the compiler's MIR built with overflow checks and debug assertions on, and each must be discharged by a named rule (constant operand, dominating guard found in the HIR, chunk/length parity, take(N)->[u8;N], enum-indexed fixed-size table); no loops or recursion in crate bodies; size-parameterised allocations need constant sizes; defragmenter growth is dominated by the size check. Decides absence of crate-local panics/overflow/unbounded loops for all inputs; library internals are trusted.", "4 C01"),
  "C02": ("parser-grammar extraction vs RFC grammar; cap-guard truth table", "other",
          "Shape-of-code decision for all inputs: the extracted wire grammar of the three record parsers must equal the RFC 5246 record grammar, the length cap predicate is tabulated over all 65536 lengths, and no parser inside the payload region may answer Incomplete.", "4 C02"),
  "C03": ("parser-grammar extraction; dispatch/repetition shape; one-step = two-step grammar equality", "other",
@@ -18,17 +18,17 @@ CLAIMED = {
  "C05": ("parser-grammar extraction; GREASE truth table; decision-table cross-check", "other",
          "Three dispatch tables, 16 tag parsers, list parsers and content parsers compared with reference grammars; GREASE predicate tabulated over all 65536 types; variant->type mapping evaluated abstractly for every variant.", "4 C05"),
  "C06": ("region/remainder dataflow on extracted grammars; type and signature rules; MIR copy-call inventory", "other",
-         "Structural necessary-and-sufficient shape for locality (every nested parser runs on its region; nothing extent-sensitive outside a region; remainder is the last element's) plus type-level zero-copy facts discharged by rustc's borrow checker under forbid(unsafe_code).", "4 C06"),
+         "Structural necessary-and-sufficient shape for locality (every nested parser runs on its region; nothing extent-sensitive outside a region; remainder is the last element's, never what a parser left of a region) plus type-level zero-copy facts discharged by rustc's borrow checker under forbid(unsafe_code).", "4 C06"),
  "C07": ("abstract interpretation with path forking of the loop-free defragmenter methods over a symbolic state and record; semantic path summaries vs a reference protocol", "other",
          "The four methods are evaluated by an abstract interpreter (helpers, the delegation to parse_record_nocopy, map_err functions and Default inlined) over a symbolic state (type T0, buffer B0) and record (type RT, data D), the one-shot parser's outcome split into six classes. Decisions are named by meaning (in_progress, type in {..}, type_mismatch, too_large[>=,10 MiB] for saturating or checked sums), and each path is summarised as (decisions, parser invocations with the buffer and pseudo header seen, final type, final buffer parts, exit class); the set of summaries must equal spec/defrag.py. Also: MAX constant, private state, Default evaluates to the fresh parser, no other exported function touches the state, fragment signalling of the one-shot parser.", "4 C07"),
  "C08": ("exhaustive decision-table extraction by abstract evaluation", "other",
          "All 1150 cells (25 states x 23 message kinds x 2 directions) are evaluated abstractly from the HIR with arbitrary payloads and compared with a reference relation; content independence is decided by the evaluator refusing any other inspection of the message.", "4 C08"),
  "C09": ("generator-IR extraction from cookie-factory trees vs reference writers; tag agreement with the parser's dispatch tables; length pairing", "other",
-         "Writer/reader agreement as a structural fact: emitted layout of the 11 serializers equals reference writers, every emitted type constant is the one the parser dispatches on (tables extracted from the same build), every direct length field prefixes exactly what follows, unsupported variants end in NotYetImplemented.", "4 C09"),
+         "Writer/reader agreement as a structural fact: emitted layout of the 11 serializers equals reference writers, every emitted type constant is the one the parser dispatches on (tables extracted from the same build), every direct length field prefixes exactly what follows, unsupported variants end in NotYetImplemented; what the Serialize impls run into a fresh Vec emits what the type's generator emits.", "4 C09"),
  "C10": ("parser-grammar extraction vs RFC 6347 grammar", "other",
          "DTLS record header (16/48-bit split), cap, handshake header, fragment predicate, bodies and datagram repetition compared with the reference grammar.", "4 C10"),
  "C11": ("dataflow on extracted grammars: every value reaching a code-point field is a bare wire integer, mentioned in no condition and overlapping no structure-deciding read; open field types", "other",
-         "For 39 code-point fields and 2 raw lists: every branch/alternative/wrapper of the extracted grammar is followed to the values that can reach the field; each must be a bare integer of full width at the same wire position as in the reference grammar, mentioned in no guard/verify/dispatch, and its bytes must not also be read by a structure-deciding element (earlier alt alternative, re-read after a rewind; static byte ranges through fixed-width elements); list elements are the plain values; field types are open newtypes; extension dispatchers keep unknown types and dispatch only IANA-known ones.", "4 C11"),
+         "For 47 code-point fields (TLS records, handshake messages, extensions, DTLS handshake messages) and 2 raw lists: every branch/alternative/wrapper of the extracted grammar is followed to the values that can reach the field; each must be a bare integer of full width at the same wire position as in the reference grammar, mentioned in no guard/verify/dispatch, and its bytes must not also be read by a structure-deciding element (earlier alt alternative, re-read after a rewind; static byte ranges through fixed-width elements); list elements are the plain values; field types are open newtypes; extension dispatchers keep unknown types and dispatch only IANA-known ones.", "4 C11"),
  "C13": ("parser-grammar extraction (derive output included) vs RFC 4492/5246 structures", "other",
          "DH/EC/ECDH/signature grammars compared with reference grammars; self-delimitation and the signature flag pairing checked structurally.", "4 C13"),
  "C14": ("parser-grammar extraction vs RFC 6962 structure; length-prefix nesting", "other",
@@ -38,7 +38,7 @@ CLAIMED = {
  "C15": ("abstract evaluation of rand_time/rand_bytes over symbolic randoms of each length; canonical symbolic form of accessors, lookups and constructors; registry vs snapshot", "other",
          "rand_time and rand_bytes are evaluated by the checker's abstract evaluator on a symbolic random (opaque bytes r0..rn-1) of each length in {0..5,8,28,31,32,33,64}: big-endian combination of r0..r3 / r[4..] when len >= 4, else 0 / empty, whatever slice API the body uses; the 12 accessors return their field; cipher_suites/get_ciphers map each id in order through the registry lookup; constructors store their arguments; the registry consulted equals the txt and the snapshot.", "4 C15"),
  "C17": ("constant-table comparison with an IANA reference; abstract evaluation of Display tables, conversions, SignatureScheme helpers and key_bits over whole domains", "other",
-         "Every registry constant evaluates (rustc const-eval) to its IANA value; no two constants of a type share a value; each Display body (match, if-chain or helper) is evaluated for every constant value and its neighbours (all 256 values for u8 types): constants print their own name, other values reach the numeric fallback; Debug delegates; From/Deref/AsRef/from_u16/to_be_bytes are the identity (abstract evaluation); is_reserved/hash_alg/sign_alg and key_bits over all 65536 values.", "4 C17"),
+         "Every registry constant evaluates (rustc const-eval) to its IANA value; no two constants of a type share a value; each Display body (match, if-chain or helper) is evaluated for every constant value and its neighbours (all 256 values for u8 types): constants print their own name, other values reach the numeric fallback; Debug writes what Display writes for all 256 values of the types whose Debug prints names; From/Deref/AsRef/from_u16/to_be_bytes are the identity (abstract evaluation); is_reserved/hash_alg/sign_alg and key_bits over all 65536 values.", "4 C17"),
  "C18": ("build matrix through the fact extractor; rustc-discharged lint/trait obligations; cross-configuration identity of extracted code", "other",
          "Three configurations must compile and the fourth must be refused by the crate's own compile_error!; forbid(unsafe_code), the unsafe inventory and Send/Sync verdicts come from rustc; every function and type outside the serializer must extract to identical facts in all buildable configurations (static substitute for result equality).", "4 C18"),
  "C16": ("combinator shape check; Failure-freedom of the element grammar", "other",
